@@ -483,6 +483,27 @@ func (m *Machine) strEq(a, b StrVal) *smt.Term {
 		}
 		return smt.And(cs...)
 	}
+	if (a.Abs != nil && a.Abs.Parts != nil) != (b.Abs != nil && b.Abs.Parts != nil) {
+		// join against a constant string: the constant splits into as many non-empty parts, equal one by one
+		j, other := a, b
+		if b.Abs != nil && b.Abs.Parts != nil {
+			j, other = b, a
+		}
+		if c, ok := other.Concrete(); ok && strings.HasPrefix(j.Abs.Ctor, "join:") && len(j.Abs.Ctor) > 5 {
+			ws := strings.Split(c, j.Abs.Ctor[5:])
+			if len(ws) != len(j.Abs.Parts) {
+				return smt.False
+			}
+			cs := make([]*smt.Term, len(ws))
+			for i, w := range ws {
+				if w == "" {
+					return smt.False
+				}
+				cs[i] = m.strEq(j.Abs.Parts[i], StrVal{S: w})
+			}
+			return smt.And(cs...)
+		}
+	}
 	if (a.Abs != nil && a.Abs.Tbl != nil) != (b.Abs != nil && b.Abs.Tbl != nil) {
 		// table token against a constant string: the index of that string in the table, if it is there
 		tok, other := a, b
